@@ -382,4 +382,111 @@ example : C10.WellFormed ([svc0, svc1, svc2, svc3].map (fun s => serverOf s { em
 example : Router.dispatch ([svc0, svc1, svc2, svc3].map (fun s => serverOf s { emitPackage := true })) (bs "/Greeter/SayHello")
     = .handler (bs "Greeter") (bs "SayHello") := by decide
 
+/-! ### Sets of services and builder histories (dimension audit aC11) -/
+
+/-- **A service of a set is generated as if it were alone.**  In a descriptor set (several
+services in one `.proto` file, several files of one package, several packages; or
+`manual::Builder::compile(&[…])`) what is generated for a service does not depend on what stands
+before or after it: same Rust name in another package, a package that is a prefix of another, any
+number of neighbours. -/
+theorem C11_set_member_independent_of_neighbours (pre post : List Service) (s : Service) (o : Opts) :
+    generateSet (pre ++ s :: post) o = generateSet pre o ++ generate s o :: generateSet post o := by
+  simp [generateSet]
+
+/-- **Every service of a set conforms** to its own definition (the executable spec predicate the
+driver evaluates per service on `px` / `mx` cases), and the set has one output per service, in order. -/
+theorem C11_set_conforms (ds : List Service) (o : Opts) :
+    (generateSet ds o).length = ds.length ∧
+    ∀ s ∈ ds, generate s o ∈ generateSet ds o ∧
+      Spec.Codegen.conforms (pkgShown s o) (toDef s o) (some (generate s o).serviceName)
+        (some ((generate s o).calls.map obsC)) (some ((generate s o).arms.map obsS)) = true := by
+  refine ⟨by simp [generateSet], ?_⟩
+  intro s hs
+  exact ⟨List.mem_map.mpr ⟨s, hs, rfl⟩, C11_conforms s o⟩
+
+/-- The value the last call of the `emit_package` setter gave, else the one before the history. -/
+def lastEmit (dflt : Bool) : List BOp → Bool
+  | [] => dflt
+  | .emitPackage b :: ops => lastEmit b ops
+  | _ :: ops => lastEmit dflt ops
+
+/-- The value the last call of the `compile_well_known_types` setter gave. -/
+def lastWkt (dflt : Bool) : List BOp → Bool
+  | [] => dflt
+  | .compileWkt b :: ops => lastWkt b ops
+  | _ :: ops => lastWkt dflt ops
+
+private theorem after_emit (st : BState) (ops : List BOp) :
+    (st.after ops).emitPackage = lastEmit st.emitPackage ops := by
+  induction ops generalizing st with
+  | nil => rfl
+  | cons op ops ih =>
+    simp only [BState.after, List.foldl_cons] at ih ⊢
+    rw [ih]
+    cases op <;> rfl
+
+private theorem after_wkt (st : BState) (ops : List BOp) :
+    (st.after ops).compileWkt = lastWkt st.compileWkt ops := by
+  induction ops generalizing st with
+  | nil => rfl
+  | cons op ops ih =>
+    simp only [BState.after, List.foldl_cons] at ih ⊢
+    rw [ih]
+    cases op <;> rfl
+
+/-- **What a builder emitted is never revised, and what it emits next depends on its past only
+through its current value**: the output of a history `a ++ b` is the output of `a` followed by
+the output of `b` run on the builder value `a` left behind. -/
+theorem C11_builder_run_append (st : BState) (a b : List BOp) :
+    st.run (a ++ b) = st.run a ++ (st.after a).run b := by
+  induction a generalizing st with
+  | nil => rfl
+  | cons op a ih =>
+    simp only [List.cons_append, BState.run, BState.after, List.foldl_cons, List.append_assoc]
+    rw [ih]
+    rfl
+
+/-- **Generating changes nothing in the builder**: `generate_server` / `generate_client` (and the
+setters of the other fields) leave the value as it was, so the same service generated twice in a
+row comes out the same, in whichever order the two sides are generated. -/
+theorem C11_builder_generation_keeps_value (st : BState) (s : Service) (p : Bytes) :
+    st.set (.genServer s p) = st ∧ st.set (.genClient s p) = st ∧ st.set .other = st :=
+  ⟨rfl, rfl, rfl⟩
+
+/-- **A `CodeGenBuilder` has no memory.**  After ANY history of setter calls and generations
+(other services, other option values, either side first), generating server and client for a
+service emits exactly what the model emits for the options now in force — each the value its
+setter was last called with, else the default — and that output satisfies the executable spec
+predicate for those options.  In particular nothing of an earlier service (its name, its
+package, an earlier `emit_package` value) can show. -/
+theorem C11_builder_has_no_memory (st : BState) (pre : List BOp) (s : Service) (p : Bytes) :
+    let o : Opts := ⟨lastEmit st.emitPackage pre, lastWkt st.compileWkt pre, p⟩
+    st.run (pre ++ [.genServer s p, .genClient s p]) =
+      st.run pre ++ [.server (serviceNameConst s o) (serverArms s o), .client (clientCalls s o)] ∧
+    st.run (pre ++ [.genClient s p, .genServer s p]) =
+      st.run pre ++ [.client (clientCalls s o), .server (serviceNameConst s o) (serverArms s o)] ∧
+    Spec.Codegen.conforms (pkgShown s o) (toDef s o) (some (serviceNameConst s o))
+      (some ((clientCalls s o).map obsC)) (some ((serverArms s o).map obsS)) = true := by
+  intro o
+  have ho : (st.after pre).opts p = o := by
+    simp only [BState.opts, after_emit, after_wkt, o]
+  refine ⟨?_, ?_, C11_conforms s o⟩
+  · rw [C11_builder_run_append]
+    simp [BState.run, BState.emit, BState.set, ho]
+  · rw [C11_builder_run_append]
+    simp [BState.run, BState.emit, BState.set, ho]
+
+/- Non-vacuity: a history that switches `emit_package` off and on again around a generation for
+another service of the same Rust name. -/
+example :
+    let st : BState := {}
+    st.run [.genServer svc1 superPath, .emitPackage false, .genServer svc0 superPath, .other,
+            .emitPackage true, .compileWkt true, .genClient svc1 superPath] =
+      [.server (bs "a.Greeter") (serverArms svc1 { emitPackage := true }),
+       .server (bs "Greeter") (serverArms svc0 { emitPackage := false }),
+       .client (clientCalls svc1 { emitPackage := true, compileWkt := true })] := by decide
+example : lastEmit true [.genServer svc1 superPath, .emitPackage false, .other] = false := by decide
+example : (generateSet [svc0, svc1, svc2, svc3] { emitPackage := true }).map (·.serviceName) =
+    [bs "a.b.Greeter", bs "a.Greeter", bs "Greeter", bs "a.b.Gre"] := by decide
+
 end C11
